@@ -27,6 +27,7 @@
 import JrpcVerif.Driver.Codec
 import JrpcVerif.Model.ClientMgr
 import JrpcVerif.Model.ClientTyped
+import JrpcVerif.Model.BatchAccessors
 import JrpcVerif.Model.ParamsSeq
 namespace Jrpc.Driver
 open Jrpc Jrpc.Client
@@ -64,11 +65,19 @@ def idText : Id → Text
   | .num n => encodeNat n
   | .str s => s
 
+def okViewRepr : OkView → String
+  | .ok k => s!"ok{k}"
+  | .err k => s!"err{k}"
+
+/-- `<into_ok>-<ok>-<len><E|N>` (harness: `client_mock::batch_view`); `into_ok` and `ok` have one body -/
+def viewRepr (v : OkView) (len : Nat) (empty : Bool) : String :=
+  okViewRepr v ++ "-" ++ okViewRepr v ++ s!"-{len}" ++ (if empty then "E" else "N")
+
 def outcomeRepr : Outcome → String
   | .response r => payloadRepr r.payload
   | .batch rs =>
     let b := wsEntries rs
-    s!"batch:{b.successes}:{b.failures}:" ++ String.intercalate "," (b.entries.map payloadRepr)
+    s!"batch:{b.successes}:{b.failures}:{viewRepr b.okView b.entries.length b.isEmpty}:" ++ String.intercalate "," (b.entries.map payloadRepr)
   | .subscribed _ s => s!"sub:{subIdRepr s}"
   | .registered _ => "reg"
   | .callErr e => errObjRepr e
@@ -169,7 +178,7 @@ def fatalRepr : Fatal → String
 def tresRepr (fatal : Bool) : TRes (TBatchResult TVal) → String
   | .err e => (if fatal then "fatal:" else "E:") ++ bErrRepr e
   | .parse => "E:parse"
-  | .ok b => s!"batch:{b.successes}:{b.failures}:" ++ String.intercalate "," (b.entries.map tentryRepr)
+  | .ok b => s!"batch:{b.successes}:{b.failures}:{viewRepr b.okView b.entries.length b.isEmpty}:" ++ String.intercalate "," (b.entries.map tentryRepr)
 
 def wiresOf : List Effect → List Text
   | [] => []
@@ -282,7 +291,7 @@ def parseArr (kind start n h : String) : Option (Bool × Nat × Nat × List Resp
 
 def batchResRepr : BRes BatchResult → String
   | .err e => s!"E:{bErrRepr e}"
-  | .ok b => s!"batch:{b.successes}:{b.failures}:" ++ String.intercalate "," (b.entries.map payloadRepr)
+  | .ok b => s!"batch:{b.successes}:{b.failures}:{viewRepr b.okView b.entries.length b.isEmpty}:" ++ String.intercalate "," (b.entries.map payloadRepr)
 
 def clientVerbCore (cs : ClientSt) (ws : List String) : Option (ClientSt × String) :=
   match ws with
